@@ -56,15 +56,24 @@ func newArena(n int64) *Arena {
 }
 
 func (s *Arena) allocate(sz uint32) uint32 {
+	return s.allocateReserve(sz, 0)
+}
+
+// allocateReserve allocates sz bytes and additionally guarantees that the
+// overflow bytes following them lie in the same chunk, without consuming them.
+// Skiplist nodes are allocated truncated to their tower height but accessed
+// through a *node of the full struct size, which must not extend past the end
+// of the chunk allocation.
+func (s *Arena) allocateReserve(sz, overflow uint32) uint32 {
 	AssertTrue(s != nil)
 	AssertTrue(sz > 0)
-	AssertTrue(sz <= s.chunkSize)
+	AssertTrue(sz+overflow <= s.chunkSize)
 	for {
 		cur := atomic.LoadUint32(&s.n)
 		start := cur
 		end := start + sz
 		startChunk := start / s.chunkSize
-		if startChunk != (end-1)/s.chunkSize {
+		if startChunk != (end+overflow-1)/s.chunkSize {
 			start = (startChunk + 1) * s.chunkSize
 			end = start + sz
 			startChunk = start / s.chunkSize
@@ -147,7 +156,7 @@ func (s *Arena) putNode(height int) uint32 {
 
 	// Pad the allocation with enough bytes to ensure pointer alignment.
 	l := uint32(MaxNodeSize - unusedSize + nodeAlign)
-	n := s.allocate(l)
+	n := s.allocateReserve(l, uint32(unusedSize))
 
 	// Return the aligned offset.
 	m := (n + uint32(nodeAlign)) & ^uint32(nodeAlign)
